@@ -11,7 +11,7 @@ from harness.props.c02 import qc, qcl, qcm, rfrac
 
 def make_block_case(rng, i, mode=0):
     from harness.props.c10 import set_exact_lagrange
-    nl = rng.choice([1, 1, 2, 2, 3]) if mode == 0 else rng.choice([2, 2, 3])
+    nl = rng.choice([1, 1, 2, 2, 3]) if mode == 0 else rng.choice([2, 2, 3])      # predictors and two-iteration cases: several levels
     P = rng.choice([2, 2, 3])
     imex = (i % 4 == 3)
     jacobi = True if nl > 1 else (rng.random() < 0.5)
@@ -48,8 +48,8 @@ def make_block_case(rng, i, mode=0):
     dt = F(1, rng.choice([4, 8]))
     u0v = [rfrac(rng, -3, 3) for _ in range(dims[0])]
     finter = (nl > 1 and i % 5 == 1)
-    ptype = {0: None, 1: 'fine_only', 2: 'pfasst_burnin'}[mode]
-    cfg = dict(kind='IMEX' if imex else 'GI', levels=levels_cfg, num_procs=P, maxiter=1, restol=F(-1), dt=dt, predict_type=ptype,
+    ptype = {0: None, 1: 'fine_only', 2: 'pfasst_burnin', 3: None}[mode]
+    cfg = dict(kind='IMEX' if imex else 'GI', levels=levels_cfg, num_procs=P, maxiter=(2 if mode == 3 else 1), restol=F(-1), dt=dt, predict_type=ptype,
                nsweeps=nsw if nl > 1 else nsw[0], finter=finter, small_tables=24, mssdc_jac=jacobi, do_coll_update=dcu)
     try:
         C = er.build_controller(cfg)
@@ -83,9 +83,9 @@ def make_block_case(rng, i, mode=0):
 
     def parts(fv):
         return fv if imex else [fv]
-    if mode == 0:
+    if mode in (0, 3):
         pred = {e['slot']: e['levels'][0] for e in log if e['cb'] == 'pre_iteration' and e['iter'] == 1}
-        post = {e['slot']: e['levels'][0] for e in log if e['cb'] == 'post_iteration' and e['iter'] == 1}
+        post = {e['slot']: e['levels'][0] for e in log if e['cb'] == 'post_iteration' and e['iter'] == (2 if mode == 3 else 1)}
     else:       # predictor: state of every step before / after the PREDICT stage
         pred = {e['slot']: e['levels'][0] for e in log if e['cb'] == 'pre_predict'}
         post = {e['slot']: e['levels'][0] for e in log if e['cb'] == 'post_predict'}
@@ -118,7 +118,7 @@ def make_block_case(rng, i, mode=0):
               coq_list([qcm(pred[p]['u']) for p in range(P)]),
               coq_list([coq_list([qcm(parts(fv)) for fv in pred[p]['f']]) for p in range(P)]),
               qcl(expected)))
-    meta = dict(mode={0: 'iteration', 1: 'predict fine_only', 2: 'predict pfasst_burnin'}[mode], steps=P, levels=nl, nodes=nn, nsweeps=nsw, dims=dims, imex=imex, jacobi=jacobi, finter=finter, dt=str(dt), quad_type=quad, do_coll_update=dcu,
+    meta = dict(mode={0: 'iteration', 1: 'predict fine_only', 2: 'predict pfasst_burnin', 3: 'two iterations'}[mode], steps=P, levels=nl, nodes=nn, nsweeps=nsw, dims=dims, imex=imex, jacobi=jacobi, finter=finter, dt=str(dt), quad_type=quad, do_coll_update=dcu,
                 QI=[x['QI'] for x in levels_cfg], u0=[str(v) for v in u0v])
     return meta, lit
 
